@@ -350,7 +350,16 @@ def run_case(case):
                         ss.reshape(-1)[i] = x
                 L[nm] = ss
             sc = await reveal(mpc, plan['scalar'](mpc, S, L))
-        return decl, plain, sc
+        after = None
+        if not plan.get('mutates'):
+            # like NumPy, an operation must leave its operands untouched (in-place protocols work on copies)
+            after = {}
+            for nm in X:
+                try:
+                    after[nm] = await reveal(mpc, X[nm])
+                except Exception:  # noqa: BLE001
+                    after[nm] = None
+        return decl, plain, sc, after
 
     sched = None
     if m > 1 and rng.random() < 0.25:
@@ -378,7 +387,7 @@ def run_case(case):
         if plan.get('finding_key_exc'):
             r['finding_key'] = plan['finding_key_exc']
         return r
-    decl, plain, sc = outs[0]
+    decl, plain, sc, after = outs[0]
     # all parties see the same opened values
     for i in range(1, m):
         msg = same(kind, outs[i][1], plain, 0.0)
@@ -407,6 +416,14 @@ def run_case(case):
         if msg:
             return fail(res, 'scalar', f'array result differs from elementwise secure scalars: {msg}',
                         expected=short(sc), observed=short(plain))
+    if after:
+        for nm, arr in inputs.items():
+            if after.get(nm) is None:
+                continue
+            msg = same(kind, after[nm], fmod(kind, arr) if kind not in ('fxp',) else arr, 0.0)
+            if msg:
+                return fail(res, 'operand-modified', f'operand {nm} opens to a different array after the operation than before '
+                            f'(NumPy leaves operands untouched): {msg}', expected=short(arr), observed=short(after[nm]))
     if plan.get('lean'):
         for req, impl in plan['lean'](P, decl, plain):
             res['lean'].append((req, impl))
